@@ -20,7 +20,7 @@ pub fn plan() -> Plan {
         meta: Meta {
             property: "C06",
             level: "fault_enumeration",
-            rule: "(a) power-loss model: a history runs with the I/O tap recording every create/write(payload)/sync/rename/remove; for each crash point (after tap event i; quick: sampled incl. every event next to a sync/create, thorough: every event) directory states are built: each file = the bytes written up to i cut at a length L with synced_len <= L <= written_len; for one chosen file every interesting L of its un-synced tail (record/field boundaries +-1, random; thorough: every byte), the other files at {synced-only, full}. The REAL init runs on the installed state (data validation on/off, corrupted blobs ignored/quarantined). Oracle: init returns Ok and a following write+read works; every blob whose file and index file were fully synced before i is served in full; for every other blob the served records are a prefix (length = its record count reported by the storage) of the records written to it before i, or the file sits byte-identical in corrupted/ (in place and unserved with ignore_corrupted); the whole query surface equals the reference model built from those per-blob prefixes, i.e. bytes are correct and nothing is served that was never written. (b) real SIGKILL of a child process doing a write-heavy history (see observed.kill_*): init Ok; every acknowledged record is served or is recovered by tools::recovery_blob from the quarantined file; writes made after recovery survive two further restarts. Non-trivial = crash state with a torn or missing un-synced suffix in at least one file, or a kill that landed mid-operation; distinct = hash(history, crash point, cuts).",
+            rule: "(a) power-loss model: a history runs with the I/O tap recording every create/write(payload)/sync/rename/remove; for each crash point (after tap event i; quick: sampled incl. every event next to a sync/create, thorough: every event) directory states are built: each file = the bytes written up to i cut at a length L with synced_len <= L <= written_len; for one chosen file every interesting L of its un-synced tail (record/field boundaries +-1, random; thorough: every byte), the other files at {synced-only, full}. The REAL init runs on the installed state (data validation on/off, corrupted blobs ignored/quarantined). Oracle: init returns Ok and a following write+read works, and a process-kill image taken after that write (worker quiescent, nothing closed) opened elsewhere answers like the live session (always with ignore_corrupted, every third state otherwise); every blob whose file and index file were fully synced before i is served in full; for every other blob the served records are a prefix (length = its record count reported by the storage) of the records written to it before i, or the file sits byte-identical in corrupted/ (in place and unserved with ignore_corrupted); the whole query surface equals the reference model built from those per-blob prefixes, i.e. bytes are correct and nothing is served that was never written. (b) real SIGKILL of a child process doing a write-heavy history (see observed.kill_*): init Ok; every acknowledged record is served or is recovered by tools::recovery_blob from the quarantined file; writes made after recovery survive two further restarts. One cut in ten is additionally installed as a zero-filled tail (outside the stated model: observed and counted in observations_zero_fill_*, never judged). Non-trivial = crash state with a torn or missing un-synced suffix in at least one file, or a kill that landed mid-operation; distinct = hash(history, crash point, cuts).",
             assumptions: vec!["power-loss model: per-file suffix truncation beyond the last completed sync; directory operations (create, rename, remove) atomic and durable", "literal reading of the statement: any prefix is acceptable for a blob that was not fully synced", "verdict holds for the crash states generated for this seed"],
         },
         shards: 16,
